@@ -29,6 +29,7 @@ theorem run_qw_notx (cs : List Call) : ∀ (e : Eng), e.tx = none → (∀ c ∈
     | begin => simp [Call.isQW] at hc
     | commit => simp [Call.isQW] at hc
     | rollback => simp [Call.isQW] at hc
+    | commitFail => simp [Call.isQW] at hc
 
 /-- inside a transaction they only extend the buffer: the log is untouched -/
 theorem run_qw_tx (cs : List Call) : ∀ (e : Eng) (b : List Eff), e.tx = some b → (∀ c ∈ cs, c.isQW = true) →
@@ -47,6 +48,7 @@ theorem run_qw_tx (cs : List Call) : ∀ (e : Eng) (b : List Eff), e.tx = some b
     | begin => simp [Call.isQW] at hc
     | commit => simp [Call.isQW] at hc
     | rollback => simp [Call.isQW] at hc
+    | commitFail => simp [Call.isQW] at hc
 
 theorem calls_qw (s : Stmt) (h : s.isTxCtl = false) : ∀ c ∈ calls s, c.isQW = true := by
   cases s with
@@ -55,6 +57,7 @@ theorem calls_qw (s : Stmt) (h : s.isTxCtl = false) : ∀ c ∈ calls s, c.isQW 
   | begin => simp [Stmt.isTxCtl] at h
   | commit => simp [Stmt.isTxCtl] at h
   | rollback => simp [Stmt.isTxCtl] at h
+  | commitConflict => simp [Stmt.isTxCtl] at h
   | _ => simp [calls, Call.isQW]
 
 theorem flat_qw (b : List Stmt) (h : b.all (!·.isTxCtl) = true) : ∀ c ∈ flat b, c.isQW = true := by
@@ -105,6 +108,15 @@ theorem unit_complete (u : TxUnit) (hu : u.ok = true) (e : Eng) (he : e.tx = non
     rw [h1, run_qw_tx _ _ [] rfl hb]
     simp [Eng.run, Eng.call, TxUnit.eff]
 
+  | txf b =>
+    have hb := flat_qw b (ok_body b (by simpa [TxUnit.ok] using hu))
+    have : flat (TxUnit.txf b).stmts = [.begin] ++ flat b ++ [.commitFail] := by
+      simp [TxUnit.stmts, flat, calls]
+    rw [this, run_append, run_append]
+    have h1 : e.run [.begin] = { disk := e.disk, tx := some [] } := by cases e; simp_all [Eng.run, Eng.call]
+    rw [h1, run_qw_tx _ _ [] rfl hb]
+    simp [Eng.run, Eng.call, TxUnit.eff]
+
 /-- a transaction block cut anywhere before its last call (the COMMIT/ROLLBACK) leaves the log untouched -/
 theorem tx_prefix_disk (b : List Stmt) (last : Call) (hb : ∀ c ∈ flat b, c.isQW = true) (e : Eng) (he : e.tx = none)
     (k : Nat) (hk : k < ([Call.begin] ++ flat b ++ [last]).length) :
@@ -137,6 +149,12 @@ theorem unit_partial (u : TxUnit) (hu : u.ok = true) (e : Eng) (he : e.tx = none
     have h : flat (TxUnit.txr b).stmts = [.begin] ++ flat b ++ [.rollback] := by simp [TxUnit.stmts, flat, calls]
     rw [h] at hk ⊢
     rw [tx_prefix_disk b .rollback hb e he k hk]; simp [TxUnit.partialEff]
+
+  | txf b =>
+    have hb := flat_qw b (ok_body b (by simpa [TxUnit.ok] using hu))
+    have h : flat (TxUnit.txf b).stmts = [.begin] ++ flat b ++ [.commitFail] := by simp [TxUnit.stmts, flat, calls]
+    rw [h] at hk ⊢
+    rw [tx_prefix_disk b .commitFail hb e he k hk]; simp [TxUnit.partialEff]
 
 /-- **Crash characterisation** for all well-formed histories, all crash points, any starting log -/
 theorem crash_char (us : List TxUnit) : ∀ (e : Eng) (k : Nat), e.tx = none → (∀ u ∈ us, u.ok = true) →
@@ -175,6 +193,7 @@ theorem disk_mono (cs : List Call) : ∀ e : Eng, e.disk <+: (e.run cs).disk := 
     | begin => cases h : e.tx <;> simp [Eng.call, h]
     | commit => cases h : e.tx <;> simp [Eng.call, h]
     | rollback => simp [Eng.call]
+    | commitFail => simp [Eng.call]
 
 theorem dump_snoc_info (log : List Eff) (d : Nat) : dump (log ++ [.info d]) = dump log := by
   simp [dump, List.foldl_append, applyEff]
